@@ -190,7 +190,53 @@ def _check_integral_layout(chk, driver, name, fd, iir):
         chk.disagree("enabled_coefficients length", {"form": name, "n": len(iir.enabled_coefficients), "reduced": len(reduced)})
     nontrivial = (len(dims) >= 2 or width == 2 or any(len(s) > 0 for s in shapes))
     chk.case("c05-integral", key=(f"{itype}|{dims}|{shapes}" if nontrivial else None))
+    _coeff_access_cases(chk, driver, name, e, reduced, width, dims)
     return int(total), int(ktotal)
+
+
+def _coeff_access_cases(chk, driver, name, e, reduced, width, dims):
+    """`coeffAccess` (Layout.lean) vs the REAL index expressions: `FFCXBackendSymbols.coefficient_dof_access` (the two call
+    sites: access.py `w[offset + begin]`, definitions.py `w[offset + (ic*bs + begin)]`) and `coefficient_dof_access_blocked`,
+    built over the real `coefficient_offsets` of this IntegralIR for a seeded (block size, begin, number of dofs) per
+    coefficient; the emitted subscript is exported and evaluated by the Lean `evalI` at the first and last dof."""
+    import zlib
+
+    import ffcx.codegeneration.lnodes as lnodes
+    from ffcx.codegeneration.symbols import FFCXBackendSymbols
+
+    from . import export
+
+    sym = FFCXBackendSymbols(e.coefficient_numbering, e.coefficient_offsets, e.original_constant_offsets)
+    ic = sym.coefficient_dof_sum_index
+    rng = random.Random(zlib.crc32(f"{name}|{dims}|{width}".encode()))
+    for k, (coef, dim) in enumerate(zip(reduced, dims)):
+        size = width * dim
+        if size == 0:
+            continue
+        bs = rng.choice([1, 1, 2, 3])
+        ndofs = rng.randrange(1, (size - 1) // bs + 2)
+        begin = rng.randrange(0, size - bs * (ndofs - 1))
+        try:
+            accs = [("coefficient_dof_access", sym.coefficient_dof_access(coef, ic * bs + begin)),
+                    ("coefficient_dof_access_blocked", sym.coefficient_dof_access_blocked(coef, ic, bs, begin)[1]),
+                    ("coefficient_dof_access(begin)", sym.coefficient_dof_access(coef, begin))]
+        except Exception as ex:
+            chk.disagree("symbols.coefficient_dof_access: cannot build the access", {"form": name, "error": repr(ex)[:200]})
+            return
+        for what, acc in accs:
+            if not isinstance(acc, lnodes.ArrayAccess) or acc.array.name != "w" or len(acc.indices) != 1:
+                chk.disagree("coefficient access is not a one-dimensional access of w", {"form": name, "function": what, "node": str(acc)[:120]})
+                continue
+            idx = export.expr(acc.indices[0])
+            for v in ({0} if what.endswith("(begin)") else {0, ndofs - 1}):
+                dof = begin if what.endswith("(begin)") else v * bs + begin
+                got = driver.ask(f"(evali {idx} ((ic {v})))")
+                model, inblock = driver.ask(f"(coeffaccess {width} {sx(dims)} {k} {dof})")
+                if got != ["ok", model] or inblock != "true":
+                    chk.disagree("coeffAccess vs the real coefficient_dof_access index expression",
+                                 {"form": name, "function": what, "coefficient": k, "dims": dims, "width": width, "block_size": bs,
+                                  "begin": begin, "ic": v, "real_index": got, "model": [model, inblock], "expr": idx})
+                chk.case("c05-coeffaccess", key=(f"{what}|{width}|{dims}|{k}|{bs}|{begin}|{v}" if (k > 0 or bs > 1 or begin > 0) else None))
 
 
 def _check_positions(chk, driver, name, fd):
